@@ -30,3 +30,70 @@ Definition check_case (c : case) : bool :=
   heaps_same (apply_changes (c_env c) (c_heap c) (c_root c) (c_changes c)) (c_after c).
 
 Definition explain_case (c : case) := apply_changes (c_env c) (c_heap c) (c_root c) (c_changes c).
+
+(* ---- the whole round trip: alignment -> changes -> apply, against the real build_diff + apply_diff ---- *)
+From Fiddle Require Import DiffBuild Lang Codegen C02Check.
+
+Record rt_case := mkrt {
+  r_env : sigenv; r_heap : heap;               (* one heap holding old and new *)
+  r_old : ref; r_new : ref;
+  r_align : list (nat * nat);                  (* the alignment the real builder ended with *)
+  r_after : heap; r_after_root : ref           (* copy of old after the real apply_diff (own numbering) *)
+}.
+
+Fixpoint insert_tags (x : skey * list N) (l : tagmap) : tagmap :=
+  match l with
+  | [] => [x]
+  | y :: l' => if skey_leb (fst x) (fst y) then x :: l else y :: insert_tags x l'
+  end.
+Definition canon_tags (t : tagmap) : tagmap :=
+  fold_right insert_tags [] (filter (fun kt => match snd kt with [] => false | _ => true end) t).
+(* dict insertion order is not part of the property: items are compared sorted by key *)
+Fixpoint listN_leb (a b : list N) : bool :=
+  match a, b with
+  | [], _ => true
+  | _ :: _, [] => false
+  | x :: a', y :: b' => if N.ltb x y then true else if N.eqb x y then listN_leb a' b' else false
+  end.
+Definition atom_rank (a : atom) : N * Z * list N :=
+  match a with
+  | AInt z => (0%N, z, []) | ABool b => (1%N, if b then 1 else 0, []) | ANone => (2%N, 0, [])
+  | AStr s => (3%N, 0, s) | ABytes s => (4%N, 0, s) | AFloat s => (5%N, 0, s) | ASym n => (6%N, 0, [n])
+  | ANoValue => (7%N, 0, []) | AEllipsis => (8%N, 0, []) | AEmptyTuple => (9%N, 0, []) | AOpaque n => (10%N, 0, [n])
+  end.
+Definition atom_leb (a b : atom) : bool :=
+  let '(ra, za, la) := atom_rank a in
+  let '(rb, zb, lb) := atom_rank b in
+  if N.ltb ra rb then true else if negb (N.eqb ra rb) then false
+  else if Z.ltb za zb then true else if negb (Z.eqb za zb) then false else listN_leb la lb.
+Fixpoint insert_kv (x : atom * ref) (l : list (atom * ref)) : list (atom * ref) :=
+  match l with
+  | [] => [x]
+  | y :: l' => if atom_leb (fst x) (fst y) then x :: l else y :: insert_kv x l'
+  end.
+Definition sort_kvs (l : list (atom * ref)) : list (atom * ref) := fold_right insert_kv [] l.
+Definition canon_node_tags (n : node) : node :=
+  match n with
+  | NBuildable k fn st tags => NBuildable k fn (sort_store st) (canon_tags tags)
+  | NDict kvs => NDict (sort_kvs kvs)
+  | NDefaultDict f kvs => NDefaultDict f (sort_kvs kvs)
+  | _ => n
+  end.
+Definition same_graph (h1 : heap) (r1 : ref) (h2 : heap) (r2 : ref) : bool :=
+  iso_b (map canon_node_tags h1) (map canon_node_tags h2) r1 r2.
+
+Definition check_rt (c : rt_case) : bool :=
+  let e := r_env c in
+  alignment_ok (r_align c) (r_heap c) (r_old c) (r_new c)
+  && match patch e (r_align c) (r_heap c) (r_old c) (r_new c) with
+     | Some h' =>
+         (* the statement of C10 on the case: old has become new *)
+         same_graph h' (r_old c) (r_heap c) (r_new c)
+         (* and the model agrees with what the real build_diff + apply_diff did *)
+         && same_graph h' (r_old c) (r_after c) (r_after_root c)
+     | None => false
+     end.
+
+Definition explain_rt (c : rt_case) :=
+  (alignment_ok (r_align c) (r_heap c) (r_old c) (r_new c),
+   build_changes (r_env c) (r_align c) (r_heap c) (r_old c) (r_new c)).
